@@ -123,18 +123,35 @@ Proof. intros. apply query_pure. auto. Qed.
 
 (* ------------------------------------------------------------------ gas estimate *)
 
-(* loop invariant: hi is the initial hi or a gas limit the executable succeeded with *)
-Lemma bin_search_inv : forall fuel ex lo hi hi0 h,
-  (hi = hi0 \/ ex hi = ExOk) -> bin_search fuel ex lo hi = BHi h -> h = hi0 \/ ex h = ExOk.
+(* the repaired midpoint: no wrap-around for any uint64 bounds with lo + 1 < hi *)
+Lemma mid64_eq : forall lo hi, lo + 1 < hi -> hi < U64 -> mid64 lo hi = lo + (hi - lo) / 2.
 Proof.
-  induction fuel as [|f IH]; intros ex lo hi hi0 h Hinv Hb; cbn [bin_search] in Hb; [discriminate|].
+  intros lo hi Hl Hh. unfold mid64.
+  assert (E : (hi + U64 - lo) mod U64 = hi - lo).
+  { replace (hi + U64 - lo) with ((hi - lo) + 1 * U64) by lia. rewrite N.mod_add by (unfold U64; lia).
+    apply N.mod_small. lia. }
+  rewrite E. apply N.mod_small. unfold U64 in *. lia.
+Qed.
+
+Lemma mid64_between : forall lo hi, lo + 1 < hi -> hi < U64 -> lo < mid64 lo hi < hi.
+Proof. intros lo hi Hl Hh. rewrite mid64_eq by assumption. lia. Qed.
+
+(* loop invariant: hi is the initial hi or a gas limit the executable succeeded with (for any midpoint rule) *)
+Lemma bin_search_with_inv : forall mid fuel ex lo hi hi0 h,
+  (hi = hi0 \/ ex hi = ExOk) -> bin_search_with mid fuel ex lo hi = BHi h -> h = hi0 \/ ex h = ExOk.
+Proof.
+  induction fuel as [|f IH]; intros ex lo hi hi0 h Hinv Hb; cbn [bin_search_with] in Hb; [discriminate|].
   destruct ((lo + 1) mod U64 <? hi).
-  - set (mid := ((hi + lo) mod U64) / 2) in *.
-    destruct (ex mid) eqn:E; try discriminate Hb;
+  - set (m := mid lo hi) in *.
+    destruct (ex m) eqn:E; try discriminate Hb;
       try (eapply IH; [|exact Hb]; exact Hinv).
     eapply IH; [|exact Hb]. right. exact E.
   - injection Hb as <-. exact Hinv.
 Qed.
+
+Lemma bin_search_inv : forall fuel ex lo hi hi0 h,
+  (hi = hi0 \/ ex hi = ExOk) -> bin_search fuel ex lo hi = BHi h -> h = hi0 \/ ex h = ExOk.
+Proof. intros fuel. apply (bin_search_with_inv mid64 fuel). Qed.
 
 Lemma estimate_is_sufficient : forall ex gas_cap args_gas max_gas g,
   estimate_gas ex gas_cap args_gas max_gas = EstOk g -> ex g = ExOk.
@@ -149,33 +166,33 @@ Proof.
   - injection H as <-. apply N.eqb_neq in Ec. destruct Hinv as [Hi|Hi]; [contradiction|exact Hi].
 Qed.
 
-(* the model's fuel is enough whenever the uint64 sum hi+lo does not wrap: 65 iterations at most *)
+(* the model's fuel is enough for EVERY uint64 bounds: 65 iterations at most *)
 Lemma bin_search_fuel : forall n fuel ex lo hi,
-  lo + 1 < U64 -> 2 * hi <= U64 -> hi - lo <= 2 ^ N.of_nat n -> (n < fuel)%nat -> bin_search fuel ex lo hi <> BFuel.
+  lo + 1 < U64 -> hi < U64 -> hi - lo <= 2 ^ N.of_nat n -> (n < fuel)%nat -> bin_search fuel ex lo hi <> BFuel.
 Proof.
-  induction n as [|n IH]; intros fuel ex lo hi Hl Hw Hd Hf; (destruct fuel as [|f]; [lia|]); cbn [bin_search].
+  unfold bin_search.
+  induction n as [|n IH]; intros fuel ex lo hi Hl Hw Hd Hf; (destruct fuel as [|f]; [lia|]); cbn [bin_search_with].
   - assert (E : ((lo + 1) mod U64 <? hi) = false).
     { apply N.ltb_ge. rewrite N.mod_small by exact Hl. cbn in Hd. lia. }
     rewrite E. discriminate.
   - destruct ((lo + 1) mod U64 <? hi) eqn:E; [|discriminate].
     apply N.ltb_lt in E. rewrite N.mod_small in E by exact Hl.
-    rewrite (N.mod_small (hi + lo)) by lia.
-    set (mid := (hi + lo) / 2).
+    pose proof (mid64_eq lo hi E Hw) as Em. set (m := mid64 lo hi) in *.
     assert (Hp : 2 ^ N.of_nat (S n) = 2 * 2 ^ N.of_nat n).
     { rewrite Nat2N.inj_succ, N.pow_succ_r'. reflexivity. }
-    assert (Hm1 : lo < mid) by (subst mid; lia).
-    assert (Hm2 : mid < hi) by (subst mid; lia).
-    assert (Hd1 : mid - lo <= 2 ^ N.of_nat n) by (subst mid; lia).
-    assert (Hd2 : hi - mid <= 2 ^ N.of_nat n) by (subst mid; lia).
-    destruct (ex mid); try discriminate; apply IH; try lia.
+    assert (Hm1 : lo < m) by lia.
+    assert (Hm2 : m < hi) by lia.
+    assert (Hd1 : m - lo <= 2 ^ N.of_nat n) by lia.
+    assert (Hd2 : hi - m <= 2 ^ N.of_nat n) by lia.
+    destruct (ex m); try discriminate; apply IH; try lia.
 Qed.
 
 Lemma pow2_64 : 2 ^ N.of_nat 64 = U64.
 Proof. reflexivity. Qed.
 
-(* never out of fuel when the highest gas limit tried is below 2^63 (block gas limits are int64) *)
+(* never out of fuel, whatever the highest gas limit tried (any uint64): since 81e4910 the search terminates *)
 Lemma estimate_never_out_of_fuel : forall ex gas_cap args_gas max_gas,
-  2 * est_hi gas_cap args_gas max_gas <= U64 ->
+  est_hi gas_cap args_gas max_gas < U64 ->
   estimate_gas ex gas_cap args_gas max_gas <> EstFuel.
 Proof.
   intros ex gas_cap args_gas max_gas Hw. unfold estimate_gas.
@@ -190,55 +207,56 @@ Qed.
 
 (* for a monotone executable (fails below a threshold, succeeds from it on) the estimate is the threshold *)
 Lemma bin_search_monotone : forall fuel ex lo hi T h,
-  (forall g, ex g = if g <? T then ExOOG else ExOk) -> 2 * hi <= U64 ->
+  (forall g, ex g = if g <? T then ExOOG else ExOk) -> hi < U64 ->
   lo < T -> T <= hi -> bin_search fuel ex lo hi = BHi h -> h = T.
 Proof.
-  induction fuel as [|f IH]; intros ex lo hi T h Hex Hw Hlo Hhi Hb; cbn [bin_search] in Hb; [discriminate|].
+  unfold bin_search.
+  induction fuel as [|f IH]; intros ex lo hi T h Hex Hw Hlo Hhi Hb; cbn [bin_search_with] in Hb; [discriminate|].
   rewrite (N.mod_small (lo + 1)) in Hb by lia.
-  rewrite (N.mod_small (hi + lo)) in Hb by lia.
   destruct (lo + 1 <? hi) eqn:E.
-  - apply N.ltb_lt in E. set (mid := (hi + lo) / 2) in *.
-    assert (Hm1 : lo < mid) by (subst mid; lia).
-    assert (Hm2 : mid < hi) by (subst mid; lia).
-    rewrite Hex in Hb. destruct (mid <? T) eqn:Em.
-    + apply N.ltb_lt in Em. eapply IH; [exact Hex| | | |exact Hb]; lia.
-    + apply N.ltb_ge in Em. eapply IH; [exact Hex| | | |exact Hb]; lia.
+  - apply N.ltb_lt in E. pose proof (mid64_eq lo hi E Hw) as Em. set (m := mid64 lo hi) in *.
+    assert (Hm1 : lo < m) by lia.
+    assert (Hm2 : m < hi) by lia.
+    rewrite Hex in Hb. destruct (m <? T) eqn:Et.
+    + apply N.ltb_lt in Et. eapply IH; [exact Hex| | | |exact Hb]; lia.
+    + apply N.ltb_ge in Et. eapply IH; [exact Hex| | | |exact Hb]; lia.
   - apply N.ltb_ge in E. injection Hb as <-. lia.
 Qed.
 
 (* ------------------------------------------------------------------ completeness and range of the estimate *)
 
 Lemma bin_search_le : forall fuel ex lo hi h,
-  lo + 1 < U64 -> 2 * hi <= U64 -> bin_search fuel ex lo hi = BHi h -> h <= hi /\ (lo < hi -> lo < h).
+  lo + 1 < U64 -> hi < U64 -> bin_search fuel ex lo hi = BHi h -> h <= hi /\ (lo < hi -> lo < h).
 Proof.
-  induction fuel as [|f IH]; intros ex lo hi h Hl Hw Hb; cbn [bin_search] in Hb; [discriminate|].
+  unfold bin_search.
+  induction fuel as [|f IH]; intros ex lo hi h Hl Hw Hb; cbn [bin_search_with] in Hb; [discriminate|].
   rewrite (N.mod_small (lo + 1)) in Hb by exact Hl.
   destruct (lo + 1 <? hi) eqn:E.
-  - apply N.ltb_lt in E. rewrite (N.mod_small (hi + lo)) in Hb by (unfold U64 in *; lia).
-    set (mid := (hi + lo) / 2) in *.
-    assert (Hm1 : lo < mid) by (subst mid; lia).
-    assert (Hm2 : mid < hi) by (subst mid; lia).
-    destruct (ex mid); try discriminate Hb.
-    + destruct (IH ex lo mid h Hl ltac:(lia) Hb) as [A B]. split; [lia|intros _; apply B; exact Hm1].
-    + destruct (IH ex mid hi h ltac:(unfold U64 in *; lia) Hw Hb) as [A B]. split; [exact A|intros _; specialize (B Hm2); lia].
-    + destruct (IH ex mid hi h ltac:(unfold U64 in *; lia) Hw Hb) as [A B]. split; [exact A|intros _; specialize (B Hm2); lia].
-    + destruct (IH ex mid hi h ltac:(unfold U64 in *; lia) Hw Hb) as [A B]. split; [exact A|intros _; specialize (B Hm2); lia].
-    + destruct (IH ex mid hi h ltac:(unfold U64 in *; lia) Hw Hb) as [A B]. split; [exact A|intros _; specialize (B Hm2); lia].
+  - apply N.ltb_lt in E. pose proof (mid64_eq lo hi E Hw) as Em. set (m := mid64 lo hi) in *.
+    assert (Hm1 : lo < m) by lia.
+    assert (Hm2 : m < hi) by lia.
+    destruct (ex m); try discriminate Hb.
+    + destruct (IH ex lo m h Hl ltac:(lia) Hb) as [A B]. split; [lia|intros _; apply B; exact Hm1].
+    + destruct (IH ex m hi h ltac:(lia) Hw Hb) as [A B]. split; [exact A|intros _; specialize (B Hm2); lia].
+    + destruct (IH ex m hi h ltac:(lia) Hw Hb) as [A B]. split; [exact A|intros _; specialize (B Hm2); lia].
+    + destruct (IH ex m hi h ltac:(lia) Hw Hb) as [A B]. split; [exact A|intros _; specialize (B Hm2); lia].
+    + destruct (IH ex m hi h ltac:(lia) Hw Hb) as [A B]. split; [exact A|intros _; specialize (B Hm2); lia].
   - injection Hb as <-. split; [lia|auto].
 Qed.
 
 Lemma bin_search_no_err : forall fuel ex lo hi, (forall g, ex g <> ExErr) -> bin_search fuel ex lo hi <> BErr.
 Proof.
-  induction fuel as [|f IH]; intros ex lo hi Hne; cbn [bin_search]; [discriminate|].
+  unfold bin_search.
+  induction fuel as [|f IH]; intros ex lo hi Hne; cbn [bin_search_with]; [discriminate|].
   destruct ((lo + 1) mod U64 <? hi); [|discriminate].
-  set (mid := ((hi + lo) mod U64) / 2).
-  destruct (ex mid) eqn:E; try (apply IH; exact Hne). exfalso. exact (Hne mid E).
+  set (m := mid64 lo hi).
+  destruct (ex m) eqn:E; try (apply IH; exact Hne). exfalso. exact (Hne m E).
 Qed.
 
 (* no false "gas required exceeds allowance": if the call succeeds with the highest gas limit that may be
    tried and no probe hits a consensus error, an estimate is returned, and it lies in (20999, cap] *)
 Lemma estimate_complete : forall ex gas_cap args_gas max_gas,
-  TxGas <= gas_cap -> 2 * est_hi gas_cap args_gas max_gas <= U64 ->
+  TxGas <= gas_cap -> est_hi gas_cap args_gas max_gas < U64 ->
   (forall g, ex g <> ExErr) -> ex (est_hi gas_cap args_gas max_gas) = ExOk ->
   exists g, estimate_gas ex gas_cap args_gas max_gas = EstOk g /\ g <= est_hi gas_cap args_gas max_gas /\
             (TxGas <= est_hi gas_cap args_gas max_gas -> TxGas <= g).
@@ -260,7 +278,7 @@ Qed.
 
 (* the estimate never exceeds the highest gas limit that may be tried *)
 Lemma estimate_le_cap : forall ex gas_cap args_gas max_gas g,
-  2 * est_hi gas_cap args_gas max_gas <= U64 ->
+  est_hi gas_cap args_gas max_gas < U64 ->
   estimate_gas ex gas_cap args_gas max_gas = EstOk g -> g <= est_hi gas_cap args_gas max_gas.
 Proof.
   intros ex gas_cap args_gas max_gas g Hw H. unfold estimate_gas in H.
